@@ -1449,6 +1449,11 @@ def gen_c14(rng: random.Random) -> dict:
             elif state['parent'] is not None:
                 steps.append({'e': 'ann', 'peer': state['parent'], 'level': rng.choice([1, 2, 3]),
                               'root': rng.choice(ROOTS), 'order': 'lr'})
+    # in a quarter of the runs 1-3 indexed files are deleted from disk after the scan (stale index)
+    gone = []
+    if rng.random() < 0.25:
+        allf = [[d['name'], sub, fn] for d in dirs for sub, fn in d['files']]
+        gone = rng.sample(allf, min(len(allf) - 1, rng.choice([1, 1, 2, 3]))) if len(allf) > 1 else []
     indirect = {p: rng.choices(['ignore', 'pierce'], [70, 30])[0] for p in list(ASKERS) + peers}
     if slow:
         indirect[slow] = 'ignore'            # else the pierced connection is there long before
@@ -1457,7 +1462,7 @@ def gen_c14(rng: random.Random) -> dict:
     # an application listener that suspends while a peer connection is CLOSING (listeners are public API)
     suspend = rng.choice([None, 0.005, 0.005]) if family == 'asker-closes' else None
     return {'dirs': dirs, 'friends': friends, 'blocked': blocked, 'n_peers': n_peers, 'steps': steps,
-            'pool': pool, 'overlap': rng.random() < 0.5, 'family': family,
+            'pool': pool, 'overlap': rng.random() < 0.5, 'family': family, 'vanished_files': gone,
             'aligned': family in ('closing-child', 'asker-closes'), 'suspend_listener': suspend,
             'indirect': indirect, 'connect_mode': rng.choice(['race', 'fallback'])}
 
@@ -1487,8 +1492,11 @@ def _fill_queries(rng: random.Random, plan: dict, model) -> None:
         for req in st.get('burst', []):
             if req.get('query') is None:
                 q = gen.query()
+                gone_words = plan.get('_gone_words') or []
                 if req.get('want_match') and gen.words:
                     q = gen.word()
+                elif gone_words and rng.random() < 0.4:
+                    q = rng.choice(gone_words)               # matches (at least) a file that vanished from disk
                 elif rng.random() < 0.45 and gen.words:        # more requests with matches
                     q = rng.choice([gen.word, gen.word, gen.wild_single, gen.punct])()
                 req['query'] = q
@@ -1598,7 +1606,22 @@ def run_c14_case(res: dict, params: dict):
                 real[(d.absolute_path, '' if sub == '.' else sub, os.path.basename(ap))] = item.get_remote_path()
         if set(real) != {it.key for it in model.entries()}:
             raise RuntimeError('harness self-check: scanned index differs from the reference index (C07 judges that)')
+        # stale index: files deleted from disk after the scan (the index, and so the reference index, keep them)
+        vanished = set()
+        gone_words: list = []
+        for dname, sub, fn in plan.get('vanished_files') or []:
+            root = os.path.join(w.tmp, 'shares', dname)
+            os.unlink(os.path.join(root, sub, fn))
+            vanished.add((root, sub, fn))
+            from .sharesmodel import query_path, split_words
+            gone_words += [wd for wd in split_words(query_path(sub, fn)) if wd]
+        if vanished:
+            add('runs_with_vanished_files')
+            if not vanished <= set(real):
+                raise RuntimeError('harness: a file to vanish is not in the index')
+        plan['_gone_words'] = sorted(set(gone_words))
         _fill_queries(rng, plan, model)
+        plan.pop('_gone_words', None)
 
         def violate(sig, **detail):
             if sig in sigs_seen:
@@ -1815,15 +1838,27 @@ def run_c14_case(res: dict, params: dict):
                         add('replies_unjudged_no_inclusion_term')
                         continue
                     add('replies_checked')
-                    vis = sorted(real[k] for k in sel.must if not model.is_locked(k[0], user))
-                    lck = sorted(real[k] for k in sel.must if model.is_locked(k[0], user))
+                    # the reply carries the indexed matches that still exist on disk
+                    gone_hit = sorted(real[k] for k in sel.must if k in vanished)
+                    vis = sorted(real[k] for k in sel.must if k not in vanished and not model.is_locked(k[0], user))
+                    lck = sorted(real[k] for k in sel.must if k not in vanished and model.is_locked(k[0], user))
                     blocked = search_blocked(plan['blocked'], user)
-                    rinfo = dict(expected_visible=vis, expected_locked=lck,
+                    rinfo = dict(expected_visible=vis, expected_locked=lck, matching_files_vanished_from_disk=gone_hit,
                                  replies=[frame_brief(m) for _l, m in replies], **info)
                     if blocked:
                         add('blocked_user_requests')
                         if replies:
                             violate('reply:to-blocked-user', **rinfo)
+                        continue
+                    if not vis and not lck and gone_hit:
+                        # every indexed match vanished from disk: whether an (empty) reply is sent is left open (the
+                        # library sends one); if one is sent it must not name the vanished files
+                        add('replies_all_matches_vanished')
+                        if len(replies) > 1:
+                            violate('reply:duplicate', **rinfo)
+                        for _l, m in replies:
+                            if m.results or m.locked_results:
+                                violate('reply:files-differ:vanished-file-offered', **rinfo)
                         continue
                     if not vis and not lck:
                         add('replies_expected_none')
@@ -1832,12 +1867,18 @@ def run_c14_case(res: dict, params: dict):
                         continue
                     nontrivial['v'] = True
                     add('replies_expected')
+                    if gone_hit:
+                        add('replies_expected_with_vanished_match')
+                        if any(model.is_locked(k[0], user) for k in sel.must if k in vanished):
+                            add('replies_expected_with_vanished_locked_match')
                     if lck:
                         add('replies_with_locked_expected')
                     if not replies:
                         if wire and user == ac['user']:
                             violate('reply:missing:asker-closed-the-previous-connection', asker_close=ac,
                                     suspending_listener=plan.get('suspend_listener'), **rinfo)
+                        elif gone_hit:
+                            violate('reply:missing:a-matching-file-vanished-from-disk', **rinfo)
                         else:
                             violate('reply:missing', **rinfo)
                         continue
